@@ -488,6 +488,72 @@ pub fn run(tier: Tier) -> i32 {
             want: Want::Pasted(".equ MODE = 2\nldi r17, 1\nldi r17, 3\nldi r16, 1\nldi r18, 1\nldi r18, 2\nldi r16, 2\n"),
         },
         Tree {
+            name: "mutual-inclusion-behind-guards",
+            files: vec![
+                ("src/main.asm", ".include \"defs.inc\"\nldi r16, DEFS_K + MAC_K\nmac_m\n"),
+                ("src/defs.inc", ".ifndef DEFS_G\n.define DEFS_G\n.equ DEFS_K = 1\n.include \"lib/macros.inc\"\n.endif\n"),
+                ("src/lib/macros.inc", ".ifndef MAC_G\n.define MAC_G\n.include \"defs.inc\"\n.equ MAC_K = 2\n.macro mac_m\nnop\n.endm\n.endif\n"),
+            ],
+            caller_dirs: vec![],
+            dirs: vec![],
+            want: Want::Pasted(".define DEFS_G\n.equ DEFS_K = 1\n.define MAC_G\n.equ MAC_K = 2\n.macro mac_m\nnop\n.endm\nldi r16, DEFS_K + MAC_K\nmac_m\n"),
+        },
+        Tree {
+            name: "file-including-itself-under-a-terminating-condition",
+            files: vec![
+                ("src/main.asm", ".include \"rec.inc\"\nldi r17, 9\n"),
+                ("src/rec.inc", ".ifndef REC_1\n.define REC_1\nldi r16, 1\n.include \"rec.inc\"\n.else\n.ifndef REC_2\n.define REC_2\nldi r16, 2\n.include \"rec.inc\"\n.else\nldi r16, 3\n.endif\n.endif\n"),
+            ],
+            caller_dirs: vec![],
+            dirs: vec![],
+            want: Want::Pasted("ldi r16, 1\nldi r16, 2\nldi r16, 3\nldi r17, 9\n"),
+        },
+        Tree {
+            name: "file-in-caller-dir-that-includes-then-file-outside-needs-that-dir",
+            files: vec![
+                ("proj/main.asm", ".include \"uart.inc\"\n.include \"timer.inc\"\nldi r16, UART_K + TIMER_K + REGS_K\n"),
+                ("lib/uart.inc", ".include \"regs.inc\"\n.equ UART_K = 1\n"),
+                ("lib/regs.inc", ".equ REGS_K = 4\n"),
+                ("lib/timer.inc", ".equ TIMER_K = 2\n"),
+                ("src/main.asm", ".include \"../proj/main.asm\"\n"),
+            ],
+            caller_dirs: vec!["lib"],
+            dirs: vec![],
+            want: Want::Pasted(".equ REGS_K = 4\n.equ UART_K = 1\n.equ TIMER_K = 2\nldi r16, UART_K + TIMER_K + REGS_K\n"),
+        },
+        Tree {
+            name: "file-in-includepath-dir-that-includes-then-includer-needs-that-dir",
+            files: vec![
+                ("src/main.asm", ".includepath \"../lib\"\n.include \"uart.inc\"\n.include \"timer.inc\"\nldi r16, UART_K + TIMER_K + REGS_K\n"),
+                ("lib/uart.inc", ".include \"regs.inc\"\n.equ UART_K = 1\n"),
+                ("lib/regs.inc", ".equ REGS_K = 4\n"),
+                ("lib/timer.inc", ".equ TIMER_K = 2\n"),
+            ],
+            caller_dirs: vec![],
+            dirs: vec![],
+            want: Want::Pasted(".equ REGS_K = 4\n.equ UART_K = 1\n.equ TIMER_K = 2\nldi r16, UART_K + TIMER_K + REGS_K\n"),
+        },
+        Tree {
+            name: "guarded-file-with-else-arm-included-twice",
+            files: vec![
+                ("src/main.asm", ".include \"g.inc\"\n.include \"g.inc\"\nldi r18, 7\n"),
+                ("src/g.inc", ".ifndef G_INC\n.define G_INC\nldi r16, 1\n.else\nldi r16, 2\n.endif\n"),
+            ],
+            caller_dirs: vec![],
+            dirs: vec![],
+            want: Want::Pasted("ldi r16, 1\nldi r16, 2\nldi r18, 7\n"),
+        },
+        Tree {
+            name: "guarded-file-with-text-between-two-conditionals-included-twice",
+            files: vec![
+                ("src/main.asm", ".include \"h.inc\"\n.include \"h.inc\"\nldi r18, 7\n"),
+                ("src/h.inc", "; header\n.ifndef H_INC\n.define H_INC\nldi r16, 1\n.endif\nldi r17, 5\n.ifdef H_INC\nldi r17, 6\n.endif\n; trailer\n"),
+            ],
+            caller_dirs: vec![],
+            dirs: vec![],
+            want: Want::Pasted("ldi r16, 1\nldi r17, 5\nldi r17, 6\nldi r17, 5\nldi r17, 6\nldi r18, 7\n"),
+        },
+        Tree {
             name: "directory-with-the-included-name-comes-first",
             files: vec![
                 ("src/main.asm", ".include \"tables.inc\"\nldi r16, TAB_K\n"),
